@@ -354,6 +354,9 @@ class ArrayLiteral(Expression):
         return isinstance(other, ArrayLiteral) and self.items == other.items
 
     def __str__(self) -> str:
+        if len(self.items) == 1:
+            # A trailing comma is what makes this an array.
+            return f"{self.items[0]},"
         return ", ".join(str(e) for e in self.items)
 
     def __hash__(self) -> int:
@@ -418,13 +421,17 @@ class TemplateString(Expression):
         return isinstance(other, TemplateString) and self.template == other.template
 
     def __str__(self) -> str:
-        return _quote_string(
-            "".join(
-                _escape_string(e.value)
+        text = "".join(e.value for e in self.template if isinstance(e, StringLiteral))
+        quote = '"' if "'" in text and '"' not in text else "'"
+        return (
+            quote
+            + "".join(
+                _escape_string(e.value).replace(quote, _BACKSLASH + quote)
                 if isinstance(e, StringLiteral)
                 else f"${{{e}}}"
                 for e in self.template
             )
+            + quote
         )
 
     def __hash__(self) -> int:
@@ -459,9 +466,10 @@ class LambdaExpression(Expression):
         self.expression = expression
 
     def __str__(self) -> str:
+        body = _boolean_str(self.expression)
         if len(self.params) == 1:
-            return f"{self.params[0]} => {self.expression}"
-        return f"({', '.join(self.params)}) => {self.expression}"
+            return f"{self.params[0]} => {body}"
+        return f"({', '.join(self.params)}) => {body}"
 
     def __hash__(self) -> int:
         return hash((tuple(self.params), hash(self.expression)))
@@ -1097,37 +1105,7 @@ class BooleanExpression(Expression):
         self.expression = expression
 
     def __str__(self) -> str:
-        def _str(
-            expression: Expression, parent_precedence: int, *, left: bool = False
-        ) -> str:
-            if isinstance(expression, LogicalNotExpression):
-                operand_str = _str(expression.expression, PRECEDENCE_PREFIX)
-                expr = f"not {operand_str}"
-                # `not` takes everything to its right as its operand, so it needs
-                # parentheses whenever it is an operand itself.
-                if parent_precedence > 0:
-                    return f"({expr})"
-                return expr
-
-            operator = _INFIX_OPERATORS.get(type(expression))
-            if operator is None:
-                return str(expression)
-
-            op, precedence = operator
-            left_str = _str(expression.left, precedence, left=True)  # type: ignore
-            right_str = _str(expression.right, precedence)  # type: ignore
-            expr = f"{left_str} {op} {right_str}"
-
-            # Infix operators of equal precedence group to the right.
-            if precedence < parent_precedence or (
-                left
-                and precedence == parent_precedence
-                and precedence > PRECEDENCE_LOGICAL_AND
-            ):
-                return f"({expr})"
-            return expr
-
-        return _str(self.expression, 0)
+        return _boolean_str(self.expression)
 
     def evaluate(self, context: RenderContext) -> object:
         return is_truthy(self.expression.evaluate(context))
@@ -1346,7 +1324,7 @@ class LogicalNotExpression(Expression):
         self.expression = expression
 
     def __str__(self) -> str:
-        return f"not {self.expression}"
+        return _boolean_str(self)
 
     def evaluate(self, context: RenderContext) -> object:
         return not is_truthy(self.expression.evaluate(context))
@@ -1372,7 +1350,7 @@ class LogicalAndExpression(Expression):
         self.right = right
 
     def __str__(self) -> str:
-        return f"{self.left} and {self.right}"
+        return _boolean_str(self)
 
     def evaluate(self, context: RenderContext) -> object:
         return is_truthy(self.left.evaluate(context)) and is_truthy(
@@ -1397,7 +1375,7 @@ class LogicalOrExpression(Expression):
         self.right = right
 
     def __str__(self) -> str:
-        return f"{self.left} or {self.right}"
+        return _boolean_str(self)
 
     def evaluate(self, context: RenderContext) -> object:
         return is_truthy(self.left.evaluate(context)) or is_truthy(
@@ -1422,7 +1400,7 @@ class EqExpression(Expression):
         self.right = right
 
     def __str__(self) -> str:
-        return f"{self.left} == {self.right}"
+        return _boolean_str(self)
 
     def evaluate(self, context: RenderContext) -> object:
         return _eq(self.left.evaluate(context), self.right.evaluate(context))
@@ -1446,7 +1424,7 @@ class NeExpression(Expression):
         self.right = right
 
     def __str__(self) -> str:
-        return f"{self.left} != {self.right}"
+        return _boolean_str(self)
 
     def evaluate(self, context: RenderContext) -> object:
         return not _eq(self.left.evaluate(context), self.right.evaluate(context))
@@ -1470,7 +1448,7 @@ class LeExpression(Expression):
         self.right = right
 
     def __str__(self) -> str:
-        return f"{self.left} <= {self.right}"
+        return _boolean_str(self)
 
     def evaluate(self, context: RenderContext) -> object:
         left = self.left.evaluate(context)
@@ -1495,7 +1473,7 @@ class GeExpression(Expression):
         self.right = right
 
     def __str__(self) -> str:
-        return f"{self.left} >= {self.right}"
+        return _boolean_str(self)
 
     def evaluate(self, context: RenderContext) -> object:
         left = self.left.evaluate(context)
@@ -1520,7 +1498,7 @@ class LtExpression(Expression):
         self.right = right
 
     def __str__(self) -> str:
-        return f"{self.left} < {self.right}"
+        return _boolean_str(self)
 
     def evaluate(self, context: RenderContext) -> object:
         return _lt(
@@ -1547,7 +1525,7 @@ class GtExpression(Expression):
         self.right = right
 
     def __str__(self) -> str:
-        return f"{self.left} > {self.right}"
+        return _boolean_str(self)
 
     def evaluate(self, context: RenderContext) -> object:
         return _lt(
@@ -1574,7 +1552,7 @@ class ContainsExpression(Expression):
         self.right = right
 
     def __str__(self) -> str:
-        return f"{self.left} contains {self.right}"
+        return _boolean_str(self)
 
     def evaluate(self, context: RenderContext) -> object:
         return _contains(
@@ -1601,7 +1579,7 @@ class InExpression(Expression):
         self.right = right
 
     def __str__(self) -> str:
-        return f"{self.left} in {self.right}"
+        return _boolean_str(self)
 
     def evaluate(self, context: RenderContext) -> object:
         return _contains(
@@ -1632,6 +1610,41 @@ _INFIX_OPERATORS: dict[type[Expression], tuple[str, int]] = {
     ContainsExpression: ("contains", PRECEDENCE_MEMBERSHIP),
     InExpression: ("in", PRECEDENCE_MEMBERSHIP),
 }
+
+
+def _boolean_str(
+    expression: Expression, parent_precedence: int = 0, *, left: bool = False
+) -> str:
+    """Return a logical or comparison expression as a string.
+
+    With the parentheses needed for it to be parsed back to the same expression.
+    """
+    if isinstance(expression, LogicalNotExpression):
+        operand_str = _boolean_str(expression.expression, PRECEDENCE_PREFIX)
+        expr = f"not {operand_str}"
+        # `not` takes everything to its right as its operand, so it needs
+        # parentheses whenever it is an operand itself.
+        if parent_precedence > 0:
+            return f"({expr})"
+        return expr
+
+    operator = _INFIX_OPERATORS.get(type(expression))
+    if operator is None:
+        return str(expression)
+
+    op, precedence = operator
+    left_str = _boolean_str(expression.left, precedence, left=True)  # type: ignore
+    right_str = _boolean_str(expression.right, precedence)  # type: ignore
+    expr = f"{left_str} {op} {right_str}"
+
+    # Infix operators of equal precedence group to the right.
+    if precedence < parent_precedence or (
+        left
+        and precedence == parent_precedence
+        and precedence > PRECEDENCE_LOGICAL_AND
+    ):
+        return f"({expr})"
+    return expr
 
 
 class LoopExpression(Expression):
